@@ -106,9 +106,11 @@ def run_kernel(mods, vecs, n, mode, rng_script):
     m = make_csr(vecs)
     rng = ScriptRng(rng_script.get("choices", ()), rng_script.get("multis", ()))
     try:
-        mods["_subsample"].subsample(m, n, mode == "with", rng)
+        with np.errstate(all="ignore"):
+            mods["_subsample"].subsample(m, n, mode == "with", rng)
     except RuntimeError:
-        raise
+        # the generator was asked more often than the script provides (the model says `other` too)
+        return {"error": "Other"}, rng.calls
     except Exception as e:
         return {"error": core.err_name(e)}, rng.calls
     out = []
@@ -178,7 +180,8 @@ def exhaustive(ctx, impls, counts):
 
 
 SMALL_VECTORS = [[1], [2], [3], [1, 1], [2, 1], [1, 2], [0, 2], [2, 0], [3, 2], [1, 0, 1], [2, 2, 1], [1, 3, 1],
-                 [0, 1, 0, 2], [3, 0, 2], [1, 1, 1, 1], [2, 0, 0, 3], [4, 2], [1, 2, 3], [3, 0, 2, 2]]
+                 [0, 1, 0, 2], [3, 0, 2], [1, 1, 1, 1], [2, 0, 0, 3], [4, 2], [1, 2, 3], [3, 0, 2, 2],
+                 [2, 3, 1, 2], [5, 3], [1, 1, 2, 0, 2, 2]]
 
 
 def gen_counts(rng, length=None, big=None):
@@ -259,6 +262,37 @@ def with_replacement_kernel(ctx, impls, k):
             multis.append(m)
         kernel_case(ctx, impls, vecs, n, "with", {"multis": multis}, ("with-replacement",), nontrivial=True)
         ctx.count("kernel-with-replacement empty-vector=%s" % (not ok))
+
+
+def unbiased_means(ctx, impls, seeds):
+    """real numpy Generator, fixed seeds: the mean count kept per entry against the exact expectation
+    n*c/T (hypergeometric without replacement, multinomial with), within 5 standard errors"""
+    for counts, n in (([3, 2, 1], 2), ([1, 4, 0, 2], 3), ([5, 5], 4), ([2, 1, 1, 1, 1], 3)):
+        T = sum(counts)
+        for name, mods in impls:
+            for mode in ("without", "with"):
+                acc = [0.0] * len(counts)
+                for seed in range(seeds):
+                    m = make_csr([counts])
+                    with np.errstate(all="ignore"):
+                        mods["_subsample"].subsample(m, n, mode == "with", np.random.default_rng(seed))
+                    for j, x in enumerate(m.data):
+                        acc[j] += x
+                worst = 0.0
+                for j, c in enumerate(counts):
+                    p = c / T
+                    mean = n * p
+                    var = n * p * (1 - p) * ((T - n) / (T - 1) if mode == "without" else 1.0)
+                    se = math.sqrt(var / seeds) if var > 0 else 0.0
+                    dev = abs(acc[j] / seeds - mean)
+                    z = dev / se if se > 0 else (0.0 if dev == 0 else float("inf"))
+                    worst = max(worst, z)
+                ctx.case({"op": "unbiased", "counts": counts, "n": n, "mode": mode, "impl": name, "seeds": seeds})
+                ctx.count("unbiased-means within 5 se" if worst <= 5 else "unbiased-means OUTSIDE 5 se")
+                if worst > 5:
+                    ctx.fail({"op": "unbiased", "counts": counts, "n": n, "mode": mode, "impl": name, "seeds": seeds},
+                             "kept-mean-matches-expectation", ["kernel", "statistical", name, mode],
+                             detail={"z": worst, "means": [a / seeds for a in acc]})
 
 
 # ----------------------------------------------------------------------------- table level
@@ -479,16 +513,17 @@ def run(ctx):
     contract_breaking_kernel(ctx, impls)
     # exhaustive subsets
     vectors = SMALL_VECTORS if ctx.quick() else SMALL_VECTORS + [
-        [2, 3, 1, 2], [5, 4], [1, 1, 1, 1, 1, 1], [4, 0, 3, 2], [2, 2, 2, 2, 2], [6, 1, 3], [1, 0, 0, 0, 7],
+        [5, 4], [1, 1, 1, 1, 1, 1], [4, 0, 3, 2], [2, 2, 2, 2, 2], [6, 1, 3], [1, 0, 0, 0, 7],
         [3, 3, 3, 3], [12], [1, 2, 3, 4], [5, 0, 5, 1], [2, 1, 2, 1, 2, 1, 2]]
     for counts in vectors:
         exhaustive(ctx, impls, counts)
     ctx.exhaustive = False
-    with_replacement_kernel(ctx, impls, 150 if ctx.quick() else 5000)
-    for _ in range(700 if ctx.quick() else 100000):
+    unbiased_means(ctx, impls, 1500 if ctx.quick() else 20000)
+    with_replacement_kernel(ctx, impls, 300 if ctx.quick() else 5000)
+    for _ in range(1500 if ctx.quick() else 100000):
         random_kernel(ctx, impls)
     # tables
-    n_tables = 330 if ctx.quick() else 12000
+    n_tables = 600 if ctx.quick() else 12000
     for i in range(n_tables):
         rng = ctx.rng
         spec = gen_count_spec(rng, 6, 6) if ctx.quick() or rng.random() < 0.7 else gen_count_spec(rng, 12, 12)
@@ -514,6 +549,8 @@ def replay(ctx, rec):
         kernel_case(ctx, impls, case["vecs"], case["n"], case["mode"], case["rng"], ("replay",))
     elif case.get("op") == "kernel-exhaustive":
         exhaustive(ctx, impls, case["counts"])
+    elif case.get("op") == "unbiased":
+        unbiased_means(ctx, impls, case["seeds"])
     else:
         s = case["spec"]
         spec = {"obs": s["obs"], "samp": s["samp"], "rows": [[float(core.unfrac(x)) for x in r] for r in s["rows"]],
